@@ -8,7 +8,7 @@ Algebraic part (Engine A, one query per case, all coefficient values):
  sqrt(x)*sqrt(x) = x for Study numbers x = a + b*B (B a blade, or the bivectors of a 3-D algebra;
  assumptions a > 0 and radicands >= 0); x**0.5 is x.sqrt(); x**n = n-fold product, x**-n of the
  inverse, x**0 = 1; norm()^2 = normsq(); normalized(x).normsq() = 1.
-exp (Engines A + F, the SKELETON): coefficients are float-subclass proxies (kv.sym.SVf) so that
+exp (Engines A + F, the SKELETON): coefficients are proxies registered as numbers.Real (kv.sym.SVf) so that
  MultiVector.exp takes its numeric branches, numpy's cosh/sinh/cos/sinc are replaced by
  UNINTERPRETED functions for the duration of the harness, every sign test on x^2 becomes a
  solver-checked decision and all feasible paths are explored: proved is which branch each feasible
@@ -85,6 +85,9 @@ def cases(tier, seed):
             out.append(dict(kind='exp-sympy-assumptions', cfg=cfg, ka=[k]))
             out.append(dict(kind='exp-numpy-scalars', cfg=cfg, ka=[k]))
             out.append(dict(kind='exp-ndarray', cfg=cfg, ka=[k]))
+        # exp of python-float 2-blades a ^ b (they square to a scalar only up to rounding residue) against the power series
+        if d >= 3:
+            out.append(dict(kind='exp-float-blade', cfg=cfg))
         # norm / normalized on CONCRETE python floats and numpy scalars (the type-dispatching numeric paths), every sign of normsq
         for k in (rng.sample(nosc, min(4, len(nosc))) if nosc else []):
             out.append(dict(kind='norm-concrete', cfg=cfg, ka=[k]))
@@ -118,6 +121,8 @@ def run_case(desc, V):
         return _run_exp_concrete(desc, V)
     if kind == 'norm-concrete':
         return _run_norm_concrete(desc, V)
+    if kind == 'exp-float-blade':
+        return _run_exp_float_blade(desc)
     alg = get_alg(desc['cfg'])
     km = kmap(alg)
     x = mv(alg, V, 'x', desc['ka'])
@@ -211,6 +216,40 @@ def run_case(desc, V):
     raise ValueError(kind)
 
 
+def _run_exp_float_blade(desc):
+    """concrete floats (sampling, stated as such): exp(a ^ b) for float vectors a, b equals the power series of a ^ b."""
+    from ..core import concrete_equal
+    alg = get_alg(desc['cfg'])
+    d = alg.d
+    order = list(alg.canon2bin.values())
+    vec = [k for k in order if bin(k).count('1') == 1]
+    rng = random.Random(d * 101 + alg.q * 7 + alg.r)
+    claims = [Note('nontrivial', ''), Eq('reached', 1, 1)]
+    for trial in range(6):
+        a = alg.multivector(keys=tuple(vec), values=[round(rng.uniform(-1.5, 1.5), 3) for _ in vec])
+        b = alg.multivector(keys=tuple(vec), values=[round(rng.uniform(-1.5, 1.5), 3) for _ in vec])
+        B = a ^ b
+        if not len(B.keys()):
+            continue
+        fkey = 'exp|float-2-blade'
+        try:
+            got = coeffs(B.exp())
+        except Exception as e:  # noqa
+            claims.append(Fail(f'exp-float-blade[{trial}]:raises', f'exp(a ^ b) for float vectors in {d}-D raises {type(e).__name__}: {str(e)[:100]} (a ^ b squares to a scalar up to rounding)',
+                               fkey=fkey + '|raises'))
+            continue
+        series, term = {0: 1.0}, alg.multivector(keys=(0,), values=[1.0])
+        for n in range(1, 40):
+            term = (term * B) * (1.0 / n)
+            for k_, v_ in coeffs(term).items():
+                series[k_] = series.get(k_, 0.0) + v_
+        for k_ in set(series) | set(got):
+            if not concrete_equal(complex(got.get(k_, 0)), complex(series.get(k_, 0)), tol=1e-8):
+                claims.append(Fail(f'exp-float-blade[{trial},{k_}]', f'exp(a ^ b) has {got.get(k_, 0)!r} on blade {k_}, the power series {series.get(k_, 0)!r}', fkey=fkey))
+                break
+    return claims
+
+
 def _run_norm_concrete(desc, V):
     """norm()**2 = normsq and normalized().normsq() = 1 on concrete floats / numpy scalars (complex arithmetic when normsq < 0):
     sampling on concrete values of the numeric type dispatch, stated as such."""
@@ -250,6 +289,21 @@ def _run_norm_concrete(desc, V):
             un = coeffs(u.normsq())
             if not concrete_equal(un.get(0, 0), 1, tol=1e-5) or any(abs(complex(v)) > 1e-6 for k_, v in un.items() if k_ != 0):
                 claims.append(Fail(f'normalized.normsq[{tname},{vals}]', f'normalized().normsq() = {un}, expected 1, for {dict(zip(ka, vs))}', fkey))
+    # an element whose squared norm is the NUMBER zero although its pattern can have a non-zero one (an ideal line stored
+    # with all six bivector coefficients): the norm is 0
+    if alg.r >= 1 and alg.d >= 3:
+        order = list(alg.canon2bin.values())
+        g2 = [k for k in order if bin(k).count('1') == 2]
+        null_bits = [i for i in range(alg.d) if alg.signs[2 ** i, 2 ** i] == 0]
+        vals = [1.0 + j if any(k >> i & 1 for i in null_bits) else 0.0 for j, k in enumerate(g2)]
+        x = alg.multivector(keys=tuple(g2), values=vals)
+        try:
+            n = x.norm()
+            if any(abs(complex(v)) > 1e-12 for v in n.values()):
+                claims.append(Fail('norm-of-ideal-element', f'norm() of the ideal bivector {dict(zip(g2, vals))} is {coeffs(n)}, expected 0', 'norm|concrete|zero-normsq'))
+        except Exception as e:  # noqa
+            claims.append(Fail('norm-of-ideal-element:raises', f'norm() of a dense bivector whose squared norm is 0 (only ideal coefficients are non-zero) raises {type(e).__name__}: {e}',
+                               'norm|concrete|zero-normsq|raises'))
     claims.append(Eq('reached', 1, 1))
     return claims
 
